@@ -245,6 +245,12 @@ def api_outcome(cfg):
 def check(run):
     import genlib as _gl
     _gl.validate_reference_get(run, n=run.n(20, 200))
+    from props.C14 import gen_file as _gen14, render as _render14, lines_of as _lines14
+    _files = []
+    for _ in range(run.n(25, 250)):
+        _secs = _gen14(run.rng)[0]
+        _files.append((_render14(_secs), _lines14(_secs), _secs))
+    _gl.validate_parse_params_section(run, _files, n=len(_files))
     import genlib
     genlib.validate_spline_modifier(run, n=run.n(40, 400))
     import genlib
